@@ -172,11 +172,15 @@ func (c *CombinedTupleReader) ReadStartingWithUser(
 	}
 
 	filteredTuples := make([]*openfgav1.Tuple, 0, len(c.contextualTuplesOrderedByObjectID))
-	for _, t := range filterTuples(c.contextualTuplesOrderedByObjectID, "", filter.Relation, userFilters) {
-		if tuple.GetType(t.GetKey().GetObject()) != filter.ObjectType {
-			continue
+	// An empty user filter matches no tuple in the datastores, so it must not match
+	// every contextual tuple here (filterTuples treats an empty list as "any user").
+	if len(userFilters) > 0 {
+		for _, t := range filterTuples(c.contextualTuplesOrderedByObjectID, "", filter.Relation, userFilters) {
+			if tuple.GetType(t.GetKey().GetObject()) != filter.ObjectType {
+				continue
+			}
+			filteredTuples = append(filteredTuples, t)
 		}
-		filteredTuples = append(filteredTuples, t)
 	}
 
 	iter1 := storage.NewStaticTupleIterator(filteredTuples)
